@@ -703,14 +703,20 @@ class Exec:
             return z3.Or(*[self.eq(item, x) for x in container.items]) if container.items else z3.BoolVal(False)
         if isinstance(container, VOpt):
             return self.contains(container.val, item, st)
-        if isinstance(container, VBDict) and isinstance(item, VRec) and item.cls == "Ballot":
+        if isinstance(container, VBDict) and container.kelem == "ballot" and isinstance(item, VRec) and item.cls == "Ballot":
             return self.bfind(st, container, item).term >= 0
+        if isinstance(container, VBDict) and container.kelem == "strseq" and isinstance(item, (VSeq, VTup, VPyList)):
+            return self.bfind(st, container, self.as_seq(item, S.Str)).term >= 0
         raise OutOfReach(f"membership in {container!r}")
 
     def bfind(self, st, d, key):
         """index of the first stored key k with k.__eq__(probe) (stored key is the left operand, S-DICT), -1 if none;
         `beq` is the specification of Ballot.__eq__ (proved equal to the real method's contract)"""
         from .calls import apply_spec
+        if d.kelem == "strseq":
+            # keys are tuples of strings: found = first stored key equal to the probe (tuple equality is structural)
+            sp = self.ctx.registry.specs["sfind"]
+            return apply_spec(self, sp, [VSeq(d.keys, S.Seq(S.Str)), VNum(z3.Length(d.keys), "int"), key], st)
         sp = self.ctx.registry.specs["bfind"]
         return apply_spec(self, sp, [VSeq(d.keys, S.Ballot), VNum(z3.Length(d.keys), "int"), key], st)
 
@@ -948,7 +954,9 @@ class Exec:
                 self.need(st, False, "IndexError", node, "tuple index")
                 raise Raise()
             return base.items[k]
-        if isinstance(base, VBDict) and isinstance(idx, VRec):
+        if isinstance(base, VBDict) and (isinstance(idx, VRec) or base.kelem == "strseq"):
+            if base.kelem == "strseq":
+                idx = self.as_seq(idx, S.Str)
             f = self.bfind(st, base, idx).term
             self.need(st, f >= 0, "KeyError", node, "dict key (Ballot)")
             return VNum(base.vals[f], "real")
@@ -1289,17 +1297,19 @@ class Exec:
             return VSeq(t, cur.elem, cur.kind)
         if isinstance(cur, VBDict):
             idx = self.eval(target.slice, st)
-            if isinstance(idx, VRec) and isinstance(v, VNum):
+            if cur.kelem == "strseq":
+                idx = self.as_seq(idx, S.Str)
+            if (isinstance(idx, VRec) or cur.kelem == "strseq") and isinstance(v, VNum):
                 from .calls import apply_spec
                 f = self.bfind(st, cur, idx).term
                 x = VNum(to_real(v), "real")
                 upd = apply_spec(self, self.ctx.registry.specs["supd"], [VSeq(cur.vals, S.Real), VNum(f, "int"), x], st).term
                 app_k, app_v = z3.Concat(cur.keys, z3.Unit(idx.term)), z3.Concat(cur.vals, z3.Unit(x.term))
                 if self.known(st, f >= 0):
-                    return VBDict(cur.keys, upd)
+                    return VBDict(cur.keys, upd, cur.kelem)
                 if self.known(st, f < 0):
-                    return VBDict(app_k, app_v)
-                return VBDict(z3.If(f >= 0, cur.keys, app_k), z3.If(f >= 0, upd, app_v))
+                    return VBDict(app_k, app_v, cur.kelem)
+                return VBDict(z3.If(f >= 0, cur.keys, app_k), z3.If(f >= 0, upd, app_v), cur.kelem)
         if isinstance(cur, VDict):
             idx = self.eval(target.slice, st)
             if isinstance(idx, VStr) and isinstance(v, VNum):
